@@ -187,7 +187,11 @@ CHECK_DEADLOCK FALSE
     pool = ["10.0.0.%d:11211" % i for i in (1, 2, 10, 21, 3)] + ["mc-a.example.com:11211", "/var/run/mc.sock", "[::1]:11212"]
     nkeys = 150 if tier == "quick" else 1500
     keys = ["key%d" % i for i in range(nkeys // 2)] + ["%x" % rnd.getrandbits(64) for _ in range(nkeys // 4)] + \
-           [("long-%d-" % i) + "x" * (240 - i % 7) for i in range(nkeys // 8)] + ["ké-%d" % i for i in range(nkeys // 8)]
+           [("long-%d-" % i) + "x" * (240 - i % 7) for i in range(nkeys // 8)] + ["ké-%d" % i for i in range(nkeys // 8)] + \
+           ["k\xa0\xb2\xb5\xbc\xbe-%d" % i for i in range(6)] + ["\ufb01-%d" % i for i in range(3)] + \
+           [b"bytes-key-%d" % i for i in range(6)] + [b"\xff\x80\xfe-%d" % i for i in range(4)]
+    # (the score of a node for a key is murmur3 of the text "<node>-<key>" as Python formats it -- for a bytes key that is its
+    # repr; whatever one thinks of that, it is what every release has computed, and placement must not move between releases)
     kid = {k: i + 1 for i, k in enumerate(keys)}
 
     def observe(h, ranks, ev, keyset, seed=0):
@@ -215,7 +219,7 @@ CHECK_DEADLOCK FALSE
                 for n in perm:
                     h.add_node(n)
             observe(h, ranks, ev, ks if pi < 3 else ks[:: 5])
-        jobs.append((list(perms[-1]), ks[:60], ranks, ev))
+        jobs.append((list(perms[-1]), [k for k in ks if isinstance(k, str)][:60], ranks, ev))
         traces.append({"h": {}, "ev": ev, "what": ("permutations", size)})
     # add/remove histories
     for hi in range(12 if tier == "quick" else 120):
